@@ -1,6 +1,7 @@
 import GwModel.PlanQueue
 import GwModel.Select
 import GwModel.Gen.Facts
+import GwModel.PlanTotal
 /-! # C08 — Planning is total: always returns, with a plan for every valid query
 
 Model level: (1) step discovery through the queue discipline the source uses (extracted on every run)
@@ -42,6 +43,32 @@ theorem no_ping_pong (possible configured : List Sel.Loc) (parent internal l : S
   unfold Sel.selectLocation at h ⊢
   rw [ho, Sel.prioOf_safe] at h ⊢
   exact Sel.choose_stable h
+
+/-- **The planner fails only for reasons that lie in its input** (planner model `Pl`, tied to plan.go by the
+    L1.plan correspondence).  For every routing table without empty entries, priority list, document (any
+    nesting of fragments, wrappers, directives) and fuel: planning an operation never ends in one of the
+    planner's internal errors ("Could not find definition for fragment", "Could not find defn") nor in a
+    panic; the only failures are a field without a location, a spread of an undefined fragment — neither
+    exists in a document that validates against the schema the routing table was built from — and the
+    model's own fuel. -/
+theorem planning_fails_only_for_its_input {env : Pl.Env} (hr : Pl.RoutesNonempty env) {fuel : Nat} {operation : String}
+    {sels : List Pl.Sel} {e : Pl.Err} (h : Pl.planOperation env fuel operation sels = .error e) :
+    (∃ t f, e = .noRoute t f) ∨ (∃ n, e = .noFragment n) ∨ e = .fuel := by
+  have := Pl.planOperation_error_benign hr h
+  cases e with
+  | noRoute t f => exact Or.inl ⟨t, f, rfl⟩
+  | noFragment n => exact Or.inr (Or.inl ⟨n, rfl⟩)
+  | fuel => exact Or.inr (Or.inr rfl)
+  | noLocalFragment n => exact absurd this (by simp [Pl.Benign])
+  | noWrapDefn => exact absurd this (by simp [Pl.Benign])
+  | crash s => exact absurd this (by simp [Pl.Benign])
+
+/-- non-vacuity: an unroutable field is reported as such, and a routable document under fragments and
+    wrappers plans -/
+example : (match Pl.planOperation { routes := [("Query.me", ["A"])], configured := [], internal := "gw", planFrags := [] } 9 "query"
+      [.field "me" "me" "" [] [] "User" [.field "x" "x" "" [] [] "String" []]] with
+    | .error e => e == .noRoute "User" "x"
+    | .ok _ => false) = true := by decide
 
 /-- why the queue fact matters: the discipline of the code before the repair gets stuck at 51 branch points -/
 theorem bounded_self_fed_queue_blocks : drainBounded 50 1000 [wide 51] = none := bounded_queue_blocks
